@@ -98,10 +98,9 @@ Definition py_strip (a : pyval) : pyval := match a with PStr s => PStr (strip s)
 Definition py_startswith (a p : pyval) : pyval :=
   match a, p with PStr s, PStr q => PBool (startswith s q) | _, _ => PErr end.
 
-Fixpoint str_rev_acc (s acc : string) : string :=
-  match s with EmptyString => acc | String c r => str_rev_acc r (String c acc) end.
-Definition str_rev (s : string) : string := str_rev_acc s EmptyString.
-Definition endswith (s p : string) : bool := String.prefix (str_rev p) (str_rev s).
+(* s.endswith(p): some suffix of s is p *)
+Fixpoint endswith (s p : string) : bool :=
+  String.eqb s p || match s with EmptyString => false | String _ r => endswith r p end.
 Definition py_endswith (a p : pyval) : pyval :=
   match a, p with PStr s, PStr q => PBool (endswith s q) | _, _ => PErr end.
 
